@@ -367,6 +367,32 @@ pub fn record(seed: u64, tier: &str, out_path: &str) {
             }
         }
     }
+    // many fields: counts beyond the 18 known tags (no such message can be valid) with well-formed offset tables of several
+    // shapes, cut off after the offsets, after the tags, or complete
+    for nt in (2u32..=40).chain([63, 64, 65, 100, 255, 256, 512, 1023, 1024, 1025]) {
+        for shape in 0..3 {
+            for cut in 0..3 {
+                let mut b: Vec<u8> = nt.to_le_bytes().to_vec();
+                for k in 1..nt { let o: u32 = match shape { 0 => 0, 1 => 4 * k, _ => 4 * (k / 2) }; b.extend_from_slice(&o.to_le_bytes()); }
+                if cut >= 1 { for k in 0..nt { b.extend_from_slice(&rc::tag_wire(1 + (k as u64 % 18))); } }
+                if cut >= 2 { b.extend(std::iter::repeat(0x5au8).take(4 * nt as usize + 8)); }
+                writeln!(out, "{}", event_of(&b, "manyfields", None)).unwrap();
+                events += 1;
+            }
+        }
+    }
+    // nesting: CERT / DELE / SREP inside one another, 1..=40 levels (single-tag levels, and two-tag levels SIG + nested)
+    for depth in 1..=40usize {
+        for two in [false, true] {
+            let mut inner: Vec<u8> = vec![0, 0, 0, 0];
+            for lvl in 0..depth {
+                let nested = [rc::CERT, rc::DELE, rc::SREP][lvl % 3];
+                inner = if two { rc::ref_encode(&[(rc::SIG, vec![7u8; 4]), (nested, inner)]) } else { rc::ref_encode(&[(nested, inner)]) };
+            }
+            writeln!(out, "{}", event_of(&inner, "nested", None)).unwrap();
+            events += 1;
+        }
+    }
     // boundary lengths
     for len in [0usize, 1, 2, 3, 4, 5, 7, 8, 65_532, 65_536] {
         let b = vec![0u8; len];
